@@ -190,7 +190,8 @@ def run(ctx):
     ctx.sample({"run": metas[-1]})
     # ---- beyond the listed properties: the covalent-coupling rule behind coupling_effects (notes only) ------
     real = []
-    for n in (["3SGB-subset", "1HPX", "4DFR"] if ctx.thorough() else ["3SGB-subset", "1HPX"]):
+    # (4DFR is left out: the closure of its two methotrexate systems does not finish in TLC's recursive operators)
+    for n in (["3SGB-subset", "1HPX", "3SGB"] if ctx.thorough() else ["3SGB-subset", "1HPX"]):
         r = runner.run(corpus.test_pdb_text(n), ["-q"])
         if r.exc is None:
             real.append((n, r.mol))
